@@ -11,7 +11,7 @@ from __future__ import annotations
 
 import ast
 
-from core.loader import AnalysisError, FuncInfo, Repo, norm, own_nodes, parent
+from core.loader import AnalysisError, FuncInfo, Repo, norm, own_nodes
 from core.report import Result
 
 from . import names
